@@ -2,7 +2,7 @@ CONSTANTS
  B = 3
  C = 2
  UL = 2
- Guard = FALSE
+ Guard = TRUE
  MaxLen = 2
 INIT GInit
 NEXT GNext
